@@ -523,7 +523,7 @@ def read_request(S, extra=None):
         return (batch, md if md_present else None)
 
     S.handlers["Reader.read_next_batch_with_custom_metadata"] = read_next
-    S.handlers["_drain_stream"] = lambda S, r: S.event("drained")
+    S.handlers["_drain_stream"] = lambda S, r, *a: S.event("drained")
     S.handlers["fmt_batch"] = lambda S, *a: ""
     S.handlers["fmt_metadata"] = lambda S, *a: ""
     S.handlers["fmt_schema"] = lambda S, *a: ""
